@@ -125,6 +125,16 @@ def run(ctx, pid, scn, timeout=6000):
     return events, prints, results
 
 
+BEYOND_FMTS = ("avro", "proto")   # importers no listed property names: observations, not verdicts
+
+
+def _report(ctx, s, sig, what, replay):
+    if s["fmt"] in BEYOND_FMTS:
+        core.add_extra(ctx, "importer/" + sig.split("/", 1)[1], what[:700])
+    else:
+        core.add_violation(ctx, sig, what, replay)
+
+
 def judge(ctx, pid, scn, events, prints, family="interop"):
     by_id = {s["id"]: s for s in scn}
     last_text = {}
@@ -142,7 +152,7 @@ def judge(ctx, pid, scn, events, prints, family="interop"):
             s = by_id[e["t"]]
             done = [x["name"] for x in events if x["t"] == e["t"] and x["e"] == "stage"]
             sig = "%s/%s/%s/driver-died-after-%s/%s" % (pid, s["dir"], s["fmt"], done[-1] if done else "begin", e.get("site", "unknown"))
-            core.add_violation(ctx, sig, "scenario %d (%s %s): the process died: %s at %s" % (e["t"], s["dir"], s["fmt"], e.get("msg"), e.get("site")),
+            _report(ctx, s, sig, "scenario %d (%s %s): the process died: %s at %s" % (e["t"], s["dir"], s["fmt"], e.get("msg"), e.get("site")),
                                {"family": family, "scenario": s})
     diffs = {}
     for kind, p in prints:
@@ -152,7 +162,7 @@ def judge(ctx, pid, scn, events, prints, family="interop"):
         s = by_id[p["t"]]
         pre = "%s/%s/%s" % (pid, s["dir"], s["fmt"])
         if kind == "REJECT":
-            core.add_violation(ctx, pre + "/Rejected:" + str(p["what"]), "scenario %d" % p["t"], {"family": family, "scenario": s})
+            _report(ctx, s, pre + "/Rejected:" + str(p["what"]), "scenario %d" % p["t"], {"family": family, "scenario": s})
             continue
         if kind != "VERDICT":
             continue
@@ -174,7 +184,7 @@ def judge(ctx, pid, scn, events, prints, family="interop"):
                     for c, fs in sorted(classes.items()):
                         what = "scenario %d, %s %s: %s lacks %s (e.g. %s); document %s" % (
                             p["t"], s["dir"], s["fmt"], stage, c, json.dumps(fs[0]), json.dumps(s["doc"])[:700])
-                        core.add_violation(ctx, "%s/%s/%s" % (pre, name, c), what,
+                        _report(ctx, s, "%s/%s/%s" % (pre, name, c), what,
                                            {"family": family, "scenario": s, "missing": fs[:5],
                                             "text": (last_text.get((p["t"], "import")) or last_text.get((p["t"], "export")) or "")[:3000]})
             else:
@@ -188,7 +198,7 @@ def judge(ctx, pid, scn, events, prints, family="interop"):
                     detail = "array-parameter-name-shared-by-operations" if shared else "plain"
                 if name == "OutputDoesNotCompile" and detail != "kin-openapi-circular-schema-reference":
                     detail = syntax_class(last_text.get((p["t"], "import")) or last_text.get((p["t"], "compile")))
-                core.add_violation(ctx, "%s/%s/%s" % (pre, name, detail), what,
+                _report(ctx, s, "%s/%s/%s" % (pre, name, detail), what,
                                    {"family": family, "scenario": s, "text": (last_text.get((p["t"], "render")) or last_text.get((p["t"], "compile")) or "")[:3000]})
 
 
@@ -234,6 +244,18 @@ def check_c11(ctx):
         if i % 5 == 0:
             add(d["openapi"], "swagger", "yaml", via="stmt")
             add(d["openapi"], "openapi3", "yaml", via="stmt")
+    # beyond the listed properties: the Avro and Protocol Buffers importers, judged by the same facts (records / messages with
+    # their fields, enumeration members); both are arr.ai importers (2 s and 6 s per document)
+    for i, d in enumerate(field):
+        if i % (step * 2) == ctx.seed % (step * 2):
+            add(d["avro"], "avro")
+        if i % (step * 5) == ctx.seed % (step * 5):
+            add(d["proto"], "proto")
+    for i, d in enumerate(rnd + awk):
+        if i % 3 == 0:
+            add(d["avro"], "avro")
+        if i % 6 == 0:
+            add(d["proto"], "proto")
     events, prints, results = run(ctx, "C11", scn)
     judge(ctx, "C11", scn, events, prints)
     states = sum(r.distinct for r in results)
